@@ -109,7 +109,7 @@ Theorem C17_resolve_cwd_indep : forall fs cwd1 cwd2 sp base r,
 Proof. exact resolve_cwd_indep. Qed.
 Print Assumptions C17_resolve_cwd_indep.
 
-(* refuted on the model (and confirmed on the real resolver, known finding S17): the documented
+(* refuted on the model (and confirmed on the real resolver, known finding L2 of known_findings.lib.json): the documented
    form `import "lib/<file>"` resolves only when the working directory is the repository root *)
 Theorem C17_lib_prefix_cwd_independent_refuted :
   exists fs root base f cwd1 cwd2,
@@ -118,3 +118,13 @@ Theorem C17_lib_prefix_cwd_independent_refuted :
     resolve fs cwd2 (shipped_path root) base ["lib"; f] = None.
 Proof. exact resolve_lib_prefix_cwd_independent_refuted. Qed.
 Print Assumptions C17_lib_prefix_cwd_independent_refuted.
+
+(* refuted on the model (and confirmed on the real compiler, known finding L3): a cycle through the compiled
+   file itself includes the main text a second time *)
+Theorem C17_main_text_once_refuted :
+  exists fs cwd sp fuel m main seen out,
+    find_file fs m = Some main /\
+    preprocess fs cwd sp fuel (dirname m) main = Ok seen out /\
+    In m (begins out).
+Proof. exact main_text_once_refuted. Qed.
+Print Assumptions C17_main_text_once_refuted.
